@@ -59,6 +59,255 @@ Proof.
   split; [apply (inv_le_state d _ t L It)|apply views_le; assumption].
 Qed.
 
+(* ---- committed tries stay openable: reopening ANY earlier commit --------------------------------- *)
+(* every committed top-level trie is stored under its own root and is well formed *)
+Record DbTop (d : database) : Prop := {
+  dt_acct : forall r t, rfind (d_acct d) r = Some t -> r = aroot t /\ sorted t;
+  dt_val : forall r t, rfind (d_val d) r = Some t -> r = vroot t /\ vnorm t;
+  dt_stk : forall r t, rfind (d_stk d) r = Some t -> r = sroot t /\ sorted (st_recs t) }.
+(* what could be opened can still be opened, to the same trie *)
+Record top_le (d d' : database) : Prop := {
+  tl_acct : forall r t, open_acct d r = Some t -> open_acct d' r = Some t;
+  tl_val : forall r t, open_val d r = Some t -> open_val d' r = Some t;
+  tl_stk : forall r t, open_stk d r = Some t -> open_stk d' r = Some t }.
+
+Lemma top_le_refl d : top_le d d. Proof. constructor; auto. Qed.
+Lemma top_le_trans a b c : top_le a b -> top_le b c -> top_le a c.
+Proof. intros [A1 A2 A3] [B1 B2 B3]. constructor; auto. Qed.
+Lemma dbtop_empty : DbTop db_empty. Proof. constructor; cbn; discriminate. Qed.
+
+Lemma vnorm_empty : vnorm vt_empty. Proof. split; [constructor|intros a v []]. Qed.
+Lemma vnorm_of_ok t : TrieOkV t -> vnorm t.
+Proof.
+  intros [A B _ _]. split; [exact A|]. intros a v Hin. apply (in_find _ _ _ A) in Hin. apply (B a v Hin).
+Qed.
+
+Definition same_top (d d' : database) : Prop := d_acct d' = d_acct d /\ d_val d' = d_val d /\ d_stk d' = d_stk d.
+Lemma commit_obj_top d o : same_top d (fst (commit_obj d o)).
+Proof.
+  unfold commit_obj.
+  set (p1 := match o_codec o with
+             | Some c => if o_dirtyCode o then (db_add_code (a_code (o_data o)) c d, set_code (Some c) false o) else (d, o)
+             | None => (d, o) end).
+  assert (H1 : same_top d (fst p1)).
+  { unfold p1. destruct (o_codec o); [destruct (o_dirtyCode o)|]; repeat split; reflexivity. }
+  destruct p1 as [d1 o1]. cbn [fst] in H1.
+  set (p2 := if o_dirtyDlgs o1 then _ else (d1, o1)).
+  assert (H2 : same_top d1 (fst p2)).
+  { unfold p2. destruct (o_dirtyDlgs o1); [|repeat split; reflexivity].
+    destruct (obj_delegations d1 o1) as [[|x r]|]; [| |]; try (repeat split; reflexivity).
+    destruct (a_dhash (o_data o1)); repeat split; reflexivity. }
+  destruct p2 as [d2 o2]. cbn [fst] in *.
+  destruct H1 as (A1 & B1 & C1), H2 as (A2 & B2 & C2). unfold same_top. cbn [db_add_stor d_acct d_val d_stk].
+  repeat split; congruence.
+Qed.
+Lemma commit_fold_top l : forall d s, same_top d (fst (fold_left commit_acct l (d, s))).
+Proof.
+  induction l as [|a r IH]; intros d s; cbn [fold_left]; [repeat split; reflexivity|].
+  rewrite commit_acct_eq. destruct (find (ac_objs s) a) as [o|]; [|apply IH]. destruct (o_deleted o); [apply IH|].
+  destruct (commit_obj_top d o) as (A & B & C). destruct (IH (fst (commit_obj d o)) (ac_set_obj a (snd (commit_obj d o)) s)) as (A' & B' & C').
+  repeat split; congruence.
+Qed.
+
+Lemma add_acct_top d t : DbTop d -> sorted t ->
+  DbTop (db_add_acct (aroot t) t d) /\ top_le d (db_add_acct (aroot t) t d).
+Proof.
+  intros [A B C] Hs. split.
+  - constructor; cbn [db_add_acct d_acct d_val d_stk]; try assumption.
+    intros r t0. cbn [rfind]. destruct (rheqb (aroot t) r) eqn:E; [|apply A].
+    apply rheqb_eq in E. intros [= <-]. auto.
+  - constructor; unfold open_acct, open_val, open_stk; cbn [db_add_acct d_acct d_val d_stk]; auto.
+    intros r t0. destruct (rheqb r (aroot [])); [auto|]. cbn [rfind].
+    destruct (rheqb (aroot t) r) eqn:E; [|auto]. apply rheqb_eq in E. subst r. intros H0.
+    destruct (A _ _ H0) as (Hr & Hs0). f_equal. apply root_acct_inj; assumption.
+Qed.
+Lemma add_val_top d t : DbTop d -> vnorm t ->
+  DbTop (db_add_val (vroot t) t d) /\ top_le d (db_add_val (vroot t) t d).
+Proof.
+  intros [A B C] Hs. split.
+  - constructor; cbn [db_add_val d_acct d_val d_stk]; try assumption.
+    intros r t0. cbn [rfind]. destruct (rheqb (vroot t) r) eqn:E; [|apply B].
+    apply rheqb_eq in E. intros [= <-]. auto.
+  - constructor; unfold open_acct, open_val, open_stk; cbn [db_add_val d_acct d_val d_stk]; auto.
+    intros r t0. destruct (rheqb r (vroot vt_empty)); [auto|]. cbn [rfind].
+    destruct (rheqb (vroot t) r) eqn:E; [|auto]. apply rheqb_eq in E. subst r. intros H0.
+    destruct (B _ _ H0) as (Hr & Hs0). f_equal. apply root_val_inj; assumption.
+Qed.
+Lemma add_stk_top d t : DbTop d -> sorted (st_recs t) ->
+  DbTop (db_add_stk (sroot t) t d) /\ top_le d (db_add_stk (sroot t) t d).
+Proof.
+  intros [A B C] Hs. split.
+  - constructor; cbn [db_add_stk d_acct d_val d_stk]; try assumption.
+    intros r t0. cbn [rfind]. destruct (rheqb (sroot t) r) eqn:E; [|apply C].
+    apply rheqb_eq in E. intros [= <-]. auto.
+  - constructor; unfold open_acct, open_val, open_stk; cbn [db_add_stk d_acct d_val d_stk]; auto.
+    intros r t0. destruct (rheqb r (sroot st_empty)); [auto|]. cbn [rfind].
+    destruct (rheqb (sroot t) r) eqn:E; [|auto]. apply rheqb_eq in E. subst r. intros H0.
+    destruct (C _ _ H0) as (Hr & Hs0). f_equal. apply root_stk_inj; assumption.
+Qed.
+
+Lemma same_top_dbtop d d' : same_top d d' -> DbTop d -> DbTop d' /\ top_le d d'.
+Proof.
+  intros (A & B & C) [X Y Z]. split.
+  - constructor; rewrite ?A, ?B, ?C; assumption.
+  - constructor; unfold open_acct, open_val, open_stk; rewrite ?A, ?B, ?C; auto.
+Qed.
+
+Lemma commit_top d de s : DbOk d -> DbTop d -> Inv d s ->
+  DbTop (fst (commit d de s)) /\ top_le d (fst (commit d de s)).
+Proof.
+  intros D T I. unfold commit.
+  destruct (iroot_spec d de s D I) as ([A B C] & [FA FB FC FD]).
+  set (s1 := iroot d de s) in *. unfold ac_commit.
+  pose proof (commit_fold_top (ac_dirty (s_acc s1)) d (s_acc s1)) as Hst.
+  destruct (commit_acct_fold (ac_dirty (s_acc s1)) d (s_acc s1) (ia_dsorted d _ A) D A FA) as (_ & _ & A1 & _ & T1 & _).
+  destruct (fold_left commit_acct (ac_dirty (s_acc s1)) (d, s_acc s1)) as [d1 a1]. cbn [fst snd] in *.
+  destruct (same_top_dbtop d d1 Hst T) as (T1' & L1).
+  destruct (add_acct_top d1 (ac_trie a1) T1' (ia_sorted d1 a1 A1)) as (T2 & L2).
+  unfold vl_commit, sk_commit.
+  destruct (add_val_top _ (vl_trie (s_val s1)) T2 (vnorm_of_ok _ (iv_trie _ B))) as (T3 & L3).
+  destruct (add_stk_top _ (sk_trie (s_stk s1)) T3 (is_trie _ C)) as (T4 & L4).
+  split; [exact T4|]. eapply top_le_trans; [exact L1|]. eapply top_le_trans; [exact L2|]. eapply top_le_trans; eassumption.
+Qed.
+
+Lemma crun_top l : forall ds, DbOk (fst ds) -> DbTop (fst ds) -> Inv (fst ds) (snd ds) ->
+  DbTop (fst (crun ds l)) /\ top_le (fst ds) (fst (crun ds l)).
+Proof.
+  unfold crun. induction l as [|c r IH]; intros ds D T I; cbn [fold_left]; [split; [exact T|apply top_le_refl]|].
+  destruct (cstep_inv ds c D I) as (D1 & I1).
+  assert (H1 : DbTop (fst (cstep ds c)) /\ top_le (fst ds) (fst (cstep ds c))).
+  { destruct c as [o|de]; cbn [cstep fst snd]; [split; [exact T|apply top_le_refl]|apply commit_top; assumption]. }
+  destruct H1 as (T1 & L1). destruct (IH _ D1 T1 I1) as (T2 & L2). split; [exact T2|eapply top_le_trans; eassumption].
+Qed.
+
+Lemma new_state_le d d' ra rv rs n : top_le d d' -> new_state d ra rv rs = Some n -> new_state d' ra rv rs = Some n.
+Proof.
+  intros [A B C]. unfold new_state.
+  destruct (open_acct d ra) as [ta|] eqn:Ea; [|discriminate].
+  destruct (open_val d rv) as [tv|] eqn:Ev; [|discriminate].
+  destruct (open_stk d rs) as [ts|] eqn:Es; [|discriminate].
+  rewrite (A _ _ Ea), (B _ _ Ev), (C _ _ Es). auto.
+Qed.
+Lemma new_reader_le d d' rv n : top_le d d' -> new_reader d rv = Some n -> new_reader d' rv = Some n.
+Proof.
+  intros [A B C]. unfold new_reader. destruct (open_val d rv) as [tv|] eqn:Ev; [|discriminate].
+  rewrite (B _ _ Ev). auto.
+Qed.
+
+Lemma state_eq_trans d1 s1 d2 s2 d3 s3 : state_eq d1 s1 d2 s2 -> state_eq d2 s2 d3 s3 -> state_eq d1 s1 d3 s3.
+Proof.
+  intros ((A1 & A2) & (B1 & B2 & B3) & (C1 & C2)) ((A1' & A2') & (B1' & B2' & B3') & (C1' & C2')).
+  split; [split|split; [split; [|split]|split]]; intros.
+  - rewrite A1. apply A1'.
+  - rewrite A2. apply A2'.
+  - rewrite B1. apply B1'.
+  - congruence.
+  - congruence.
+  - rewrite C1. apply C1'.
+  - rewrite C2. apply C2'.
+Qed.
+
+(* EVERY commit of a history: the roots it returned reopen, at any later point of the history
+   (the same StateDB has gone on writing and committing), to a state that shows what the
+   committing state showed at that commit; likewise the validator reader *)
+Lemma reopen_any d s l1 de l2 : DbOk d -> DbTop d -> Inv d s ->
+  let c := commit (fst (crun (d, s) l1)) de (snd (crun (d, s) l1)) in
+  let later := crun c l2 in
+  exists n r,
+    new_state (fst later) (fst (fst (roots (snd c)))) (snd (fst (roots (snd c)))) (snd (roots (snd c))) = Some n /\
+    new_reader (fst later) (snd (fst (roots (snd c)))) = Some r /\
+    state_eq (fst later) n (fst c) (snd c) /\ val_eq r (s_val (snd c)) /\ Inv (fst later) n.
+Proof.
+  intros D T I. cbn zeta.
+  destruct (crun_inv l1 (d, s) D I) as (D1 & I1). destruct (crun_top l1 (d, s) D T I) as (T1 & _).
+  set (ds1 := crun (d, s) l1) in *.
+  destruct (commit_spec (fst ds1) de (snd ds1) D1 I1) as (D2 & _ & I2 & F2 & N & R & In & E).
+  destruct (commit_top (fst ds1) de (snd ds1) D1 T1 I1) as (T2 & _).
+  set (c := commit (fst ds1) de (snd ds1)) in *.
+  destruct (crun_top l2 c D2 T2 I2) as (_ & L). pose proof (crun_le l2 c D2 I2) as Le.
+  eexists. eexists. split; [apply (new_state_le _ _ _ _ _ _ L N)|]. split; [apply (new_reader_le _ _ _ _ L R)|].
+  split; [|split; [apply new_vals_reads; [apply I2|apply F2]|apply (inv_le_state _ _ _ Le In)]].
+  eapply state_eq_trans; [apply (views_le _ _ _ D2 Le In)|exact E].
+Qed.
+
+(* ---- the Database's trie cache is transparent ------------------------------------------------------- *)
+(* a hit is a live trie that hashes to the requested root ... *)
+Lemma cache_acct_sound hs c r t : cache_acct hs c r = Some t ->
+  aroot t = r /\ exists h s, find hs h = Some s /\ t = ac_trie (s_acc s).
+Proof.
+  induction c as [|(h & k) rest IH]; cbn [cache_acct]; [discriminate|].
+  destruct (if N.eqb k 0 then find hs h else None) as [s|] eqn:Es; [|exact IH].
+  destruct (rheqb (aroot (ac_trie (s_acc s))) r) eqn:E; [|exact IH].
+  intros [= <-]. split; [apply rheqb_eq; exact E|]. exists h, s. split; [|reflexivity].
+  destruct (N.eqb k 0); [exact Es|discriminate].
+Qed.
+Lemma cache_val_sound hs c r t : cache_val hs c r = Some t ->
+  vroot t = r /\ exists h s, find hs h = Some s /\ t = vl_trie (s_val s).
+Proof.
+  induction c as [|(h & k) rest IH]; cbn [cache_val]; [discriminate|].
+  destruct (if N.eqb k 1 then find hs h else None) as [s|] eqn:Es; [|exact IH].
+  destruct (rheqb (vroot (vl_trie (s_val s))) r) eqn:E; [|exact IH].
+  intros [= <-]. split; [apply rheqb_eq; exact E|]. exists h, s. split; [|reflexivity].
+  destruct (N.eqb k 1); [exact Es|discriminate].
+Qed.
+Lemma cache_stk_sound hs c r t : cache_stk hs c r = Some t ->
+  sroot t = r /\ exists h s, find hs h = Some s /\ t = sk_trie (s_stk s).
+Proof.
+  induction c as [|(h & k) rest IH]; cbn [cache_stk]; [discriminate|].
+  destruct (if N.eqb k 2 then find hs h else None) as [s|] eqn:Es; [|exact IH].
+  destruct (rheqb (sroot (sk_trie (s_stk s))) r) eqn:E; [|exact IH].
+  intros [= <-]. split; [apply rheqb_eq; exact E|]. exists h, s. split; [|reflexivity].
+  destruct (N.eqb k 2); [exact Es|discriminate].
+Qed.
+
+(* ... so opening through the cache gives exactly what the trie database gives *)
+Record MachineOk (m : machine) : Prop := {
+  mo_top : DbTop (m_db m);
+  mo_hs : forall h s, find (m_hs m) h = Some s -> Inv (m_db m) s }.
+
+Lemma open_acct_wf d r t : DbTop d -> open_acct d r = Some t -> aroot t = r /\ sorted t.
+Proof.
+  intros T. unfold open_acct. destruct (rheqb r (aroot [])) eqn:E.
+  - apply rheqb_eq in E. intros [= <-]. split; [symmetry; exact E|constructor].
+  - intros H0. destruct (dt_acct d T _ _ H0) as (-> & Hs). auto.
+Qed.
+Lemma open_val_wf d r t : DbTop d -> open_val d r = Some t -> vroot t = r /\ vnorm t.
+Proof.
+  intros T. unfold open_val. destruct (rheqb r (vroot vt_empty)) eqn:E.
+  - apply rheqb_eq in E. intros [= <-]. split; [symmetry; exact E|apply vnorm_empty].
+  - intros H0. destruct (dt_val d T _ _ H0) as (-> & Hs). auto.
+Qed.
+Lemma open_stk_wf d r t : DbTop d -> open_stk d r = Some t -> sroot t = r /\ sorted (st_recs t).
+Proof.
+  intros T. unfold open_stk. destruct (rheqb r (sroot st_empty)) eqn:E.
+  - apply rheqb_eq in E. intros [= <-]. split; [symmetry; exact E|constructor].
+  - intros H0. destruct (dt_stk d T _ _ H0) as (-> & Hs). auto.
+Qed.
+
+Lemma cache_transparent m ra rv rs n : MachineOk m ->
+  new_state (m_db m) ra rv rs = Some n -> mnew_state m ra rv rs = Some n.
+Proof.
+  intros [T Hs]. unfold new_state, mnew_state, mopen_acct, mopen_val, mopen_stk.
+  destruct (open_acct (m_db m) ra) as [ta|] eqn:Ea; [|discriminate].
+  destruct (open_val (m_db m) rv) as [tv|] eqn:Ev; [|discriminate].
+  destruct (open_stk (m_db m) rs) as [ts|] eqn:Es; [|discriminate].
+  destruct (open_acct_wf _ _ _ T Ea) as (Ra & Sa). destruct (open_val_wf _ _ _ T Ev) as (Rv & Sv).
+  destruct (open_stk_wf _ _ _ T Es) as (Rs & Ss).
+  assert (Ha : match cache_acct (m_hs m) (m_cache m) ra with Some t => Some t | None => Some ta end = Some ta).
+  { destruct (cache_acct (m_hs m) (m_cache m) ra) as [t|] eqn:Ec; [|reflexivity].
+    destruct (cache_acct_sound _ _ _ _ Ec) as (Rt & h & s & Fh & ->). f_equal.
+    apply root_acct_inj; [apply (ia_sorted _ _ (inv_a _ _ (Hs h s Fh)))|exact Sa|congruence]. }
+  assert (Hv : match cache_val (m_hs m) (m_cache m) rv with Some t => Some t | None => Some tv end = Some tv).
+  { destruct (cache_val (m_hs m) (m_cache m) rv) as [t|] eqn:Ec; [|reflexivity].
+    destruct (cache_val_sound _ _ _ _ Ec) as (Rt & h & s & Fh & ->). f_equal.
+    apply root_val_inj; [apply vnorm_of_ok, (iv_trie _ (inv_v _ _ (Hs h s Fh)))|exact Sv|congruence]. }
+  assert (Hk : match cache_stk (m_hs m) (m_cache m) rs with Some t => Some t | None => Some ts end = Some ts).
+  { destruct (cache_stk (m_hs m) (m_cache m) rs) as [t|] eqn:Ec; [|reflexivity].
+    destruct (cache_stk_sound _ _ _ _ Ec) as (Rt & h & s & Fh & ->). f_equal.
+    apply root_stk_inj; [apply (is_trie _ (inv_s _ _ (Hs h s Fh)))|exact Ss|congruence]. }
+  rewrite Ha, Hv, Hk. intros H0. exact H0.
+Qed.
+
 (* reachable from the empty database by calls and commits *)
 Definition reached (l : list cop) : database * statedb := crun (db_empty, genesis) l.
 Lemma reached_ok l : DbOk (fst (reached l)) /\ Inv (fst (reached l)) (snd (reached l)).
